@@ -927,7 +927,7 @@ def primAssign (level : Addr) (d : DescArg) (v : Val) : PrimObs :=
       | none => ⟨0, false, false, false, .none⟩ }
 
 /-! ### the order in which toPropertyDescriptor reads the fields of a descriptor object (property.go:123-195),
-    observable when the fields are getters.  Field codes: 0 enumerable, 1 configurable, 2 writable, 3 value, 4 get, 5 set -/
+    observable when the fields are getters (order as of the read-order fix).  Field codes: 0 enumerable, 1 configurable, 2 writable, 3 value, 4 get, 5 set -/
 
 def GS.isPresent : GS → Bool
   | .absent => false
@@ -937,17 +937,18 @@ def GS.isBad : GS → Bool
   | .bad => true
   | _ => false
 
-/-- (fields read in order, threw TypeError) -/
+/-- (fields read in order, threw TypeError): enumerable, configurable, value, writable, get, set, then the
+    accessor-versus-data conflict (property.go, after the read-order fix) -/
 def readOrder (d : Desc) : List Nat × Bool :=
-  let r0 := (if d.e.isSome then [0] else []) ++ (if d.c.isSome then [1] else []) ++ (if d.w.isSome then [2] else [])
+  let r0 := (if d.e.isSome then [0] else []) ++ (if d.c.isSome then [1] else []) ++
+            (if d.v.isSome then [3] else []) ++ (if d.w.isSome then [2] else [])
   let r1 := r0 ++ (if d.g.isPresent then [4] else [])
   if d.g.isBad then (r1, true) else
   let r2 := r1 ++ (if d.s.isPresent then [5] else [])
   if d.s.isBad then (r2, true) else
   let getterSetter := d.g.isPresent || d.s.isPresent
   if getterSetter && d.w.isSome then (r2, true)
-  else if d.v.isSome then
-    (if getterSetter then (r2, true) else (r2 ++ [3], false))
+  else if getterSetter && d.v.isSome then (r2, true)
   else (r2, false)
 
 /-! ### objects that built-ins create while a prototype carries an accessor / read-only property of the
